@@ -66,6 +66,10 @@ pub struct TxSpec {
     pub inputs: Vec<InSpec>,
     pub outputs: Vec<OutSpec>,
     pub segwit: bool,
+    /// verbatim copy of a transaction built earlier (same block included): identical txid,
+    /// its outputs are created again
+    #[serde(default)]
+    pub dup_of: Option<u16>,
 }
 
 #[derive(Clone, Debug, PartialEq, Eq, Serialize, Deserialize)]
@@ -138,9 +142,21 @@ pub fn mono(i: u16, len: usize) -> usize {
 
 struct Ctx {
     outs: Vec<(H256, u32)>,
+    /// non-coinbase transactions built so far
+    txs: Vec<Tx>,
 }
 
 fn build_tx(t: &TxSpec, ctx: &mut Ctx, force_coinbase: bool) -> Tx {
+    if let (Some(k), false) = (t.dup_of, force_coinbase) {
+        if !ctx.txs.is_empty() {
+            let c = ctx.txs[mono(k, ctx.txs.len())].clone();
+            let txid = c.txid();
+            for n in 0..c.outputs.len() {
+                ctx.outs.push((txid, n as u32));
+            }
+            return c;
+        }
+    }
     let mut inputs = Vec::with_capacity(t.inputs.len());
     for (k, i) in t.inputs.iter().enumerate() {
         let (txid, idx) = if force_coinbase {
@@ -172,11 +188,14 @@ fn build_tx(t: &TxSpec, ctx: &mut Ctx, force_coinbase: bool) -> Tx {
     for n in 0..tx.outputs.len() {
         ctx.outs.push((txid, n as u32));
     }
+    if !force_coinbase {
+        ctx.txs.push(tx.clone());
+    }
     tx
 }
 
 fn build_auxpow(a: &AuxPowSpec) -> AuxPow {
-    let mut ctx = Ctx { outs: vec![] };
+    let mut ctx = Ctx { outs: vec![], txs: vec![] };
     let cb = build_tx(&a.coinbase, &mut ctx, true);
     let s = a.seed as u64;
     let mut hdr = Vec::with_capacity(80);
@@ -198,7 +217,7 @@ fn build_auxpow(a: &AuxPowSpec) -> AuxPow {
 impl ChainSpec {
     pub fn build(&self) -> Built {
         let mut blocks: Vec<(u64, Block)> = Vec::new();
-        let mut ctx = Ctx { outs: vec![] };
+        let mut ctx = Ctx { outs: vec![], txs: vec![] };
         let mut height = self.base;
         let mut prev: H256 = if self.base == 0 { [0u8; 32] } else { seed_hash(b"parent", self.base, 0) };
         if self.base == 0 && self.real_genesis {
@@ -265,6 +284,7 @@ pub fn chain_from_scripts(coin: Coin, scripts: &[Vec<u8>], values: &[u64], per_t
         inputs: vec![InSpec { src: Src::Null, script_sig: vec![2, (n & 0xff) as u8, (n >> 8) as u8], sequence: 0xffff_ffff, witness: vec![] }],
         outputs: vec![OutSpec { value: 5_000_000_000, script: { let mut s = vec![0x76, 0xa9, 0x14]; s.extend([0x11; 20]); s.extend([0x88, 0xac]); s } }],
         segwit: false,
+        dup_of: None,
     };
     let flush = |txs: &mut Vec<TxSpec>, blocks: &mut Vec<BlockSpec>| {
         let n = blocks.len();
@@ -272,7 +292,7 @@ pub fn chain_from_scripts(coin: Coin, scripts: &[Vec<u8>], values: &[u64], per_t
     };
     for (k, chunk) in scripts.chunks(per_tx).enumerate() {
         let outputs: Vec<OutSpec> = chunk.iter().enumerate().map(|(j, s)| OutSpec { value: values[(k * per_tx + j) % values.len().max(1)], script: s.clone() }).collect();
-        txs.push(TxSpec { version: 2, locktime: 0, inputs: vec![InSpec { src: Src::Unknown((k & 0xff) as u8, k as u32), script_sig: vec![0x01, 0x51], sequence: 0xffff_fffe, witness: vec![] }], outputs, segwit: false });
+        txs.push(TxSpec { version: 2, locktime: 0, inputs: vec![InSpec { src: Src::Unknown((k & 0xff) as u8, k as u32), script_sig: vec![0x01, 0x51], sequence: 0xffff_fffe, witness: vec![] }], outputs, segwit: false, dup_of: None });
         if txs.len() == txs_per_block {
             flush(&mut txs, &mut blocks);
         }
